@@ -1,4 +1,6 @@
 import PlcProofs.Lemmas.Case
+import PlcModel.Gen.TextKw
+import PlcModel.Peg
 
 /-!
 # C08 — letter case never changes how a text is cut into tokens
@@ -224,5 +226,26 @@ theorem lexItems_case_invariant (mask : List Bool) (s : List Char) :
 
 example : respell [true, true, false, true] "End_if".toList = "eNd_if".toList := by decide
 example : (lexItems "eNd_If x".toList).map key = (lexItems "END_IF x".toList).map key := by decide +kernel
+
+
+/-! ### keywords that the grammar recognises by their text (`Gen/TextKw.lean`, re-extracted from parser.rs on every run) -/
+
+/-- Every grammar rule that recognises a token by its text (`tok_eq`, `id_eq`, `dt_sep`: INTERVAL, PRIORITY, the
+action qualifiers, the duration units, `T#` / `D#`, the exponent `E`, …) compares it with `eq_ignore_ascii_case`. -/
+theorem text_rules_ignore_case : Gen.textMatchRules.all (·.2) = true := by decide
+
+/-- every literal of the grammar that is matched by text goes through one of those rules -/
+theorem text_literals_covered : Gen.textKw.all (fun l => Gen.textMatchRules.any (·.1 == l.1)) = true := by decide
+
+/-- The mirror's text match (`P.tokEq`, the model of those rules) depends on the token text only through its
+lower-cased form: re-spelling the letters of a token never changes whether a textual keyword matches it. -/
+theorem tokEq_case_invariant (ty val : String) (t t' : Item) (ts : List Item) (hty : t'.ty = t.ty)
+    (htx : t'.text.map P.asciiLower = t.text.map P.asciiLower) :
+    (P.tokEq ty val (t' :: ts)).isSome = (P.tokEq ty val (t :: ts)).isSome := by
+  simp only [P.tokEq, P.eqIgnoreAsciiCase, hty, htx]
+  by_cases h : (t.ty == ty && List.map P.asciiLower t.text == List.map P.asciiLower val.toList) = true <;> simp [h]
+
+/-- non-vacuity: `interval` and `INTERVAL` are the same textual keyword -/
+example : (P.tokEq "Identifier" "INTERVAL" [⟨false, "Identifier", 0, 0, 0, 0, "interval".toList⟩]).isSome = true := by decide
 
 end C08
